@@ -29,7 +29,7 @@ RULE = ('sweep shards: for each field every value of its documented range x corn
         '(thorough: all 2**k corners, quick: 4 of them - all-min, all-max, two alternating patterns); each tuple is one case per calling convention (array call, scalar '
         'call, scalar call with run2d as decimal string and as vN_M_P, unwrap from integer / U / S arrays with every option). '
         'reject shards: every value at distance 1, 2 and 2**k (k<=62) outside each range and negative values x corners x scalar / '
-        'array position and narrower dtype that holds the values; every length-mismatch pattern; line+index. Every array call is made twice on the same argument objects: arguments must be bit-identical afterwards and the second result equal (one extra case per vector call). A case is non-trivial when at least two fields (camcol not '
+        'array position and narrower dtype that holds the values; every length-mismatch pattern; line+index. order shards: per field ALL arrays of length 1..4 (thorough 1..5) over a 3-value alphabet (min, typical, max; a,b,a / a,a,b / a,b,b,a included) with the other fields constant, array call vs oracle vs one scalar call per element, and the id arrays through every unwrap form/option. Every array call is made twice on the same argument objects: arguments must be bit-identical afterwards and the second result equal (one extra case per vector call). A case is non-trivial when at least two fields (camcol not '
         'counted) are non-zero, or when a rejection is demanded. Distinct = distinct (convention, packed id) resp. distinct argument tuples.')
 ASSUMPTIONS = ['input arrays are integer arrays: int64 and the narrower/unsigned dtype profiles i4, i2 (int16 where the documented range fits, else int32), u2 (uint16/uint32), u4, u8, one profile for all columns of a call; numpy scalars, floats, bools are not generated',
                'numeric values are int64-representable (|v| <= 2**62); Python ints beyond int64 are outside the bound',
@@ -283,6 +283,13 @@ def check_pack(case):
     if res and prof != 'i8':
         if not _check_pack(dict(case, dtype='i8')):
             res = [(_dtype_sig(sig, prof), msg) for sig, msg in res]
+    n = max([len(v) for v in case['args'].values() if isinstance(v, list)] or [0])
+    if res and n > 1 and all(_len(v) == n for v in case['args'].values() if isinstance(v, list)):
+        # computed trigger: every element alone (single-element arrays, same dtype) is handled correctly
+        singles = [dict(case, args={k: ([v[i]] if isinstance(v, list) else v) for k, v in case['args'].items()}, tag='value')
+                   for i in range(n)]
+        if all(_check_pack(c) == [] for c in singles):
+            res = [(sig + ':multi-element-array-only', msg) for sig, msg in res]
     return res
 
 
@@ -320,6 +327,23 @@ def _check_pack(case):
         if not _same_outcome(r, exc, r2, exc2):
             side.append(('%s:second-call-differs' % name, 'same argument objects, first %r/%r second %r/%r' % (r, exc, r2, exc2)))
     main = _classify_pack(fn, name, args, exp, r, exc)
+    if case.get('tag') == 'order' and exp[0] == 'ok' and exc is None and not main:
+        # array call vs. one scalar call per element (Python ints), element by element
+        n = len(exp[1])
+        got = _intlist(r)
+        for i in range(n):
+            kw = {k: (v[i] if isinstance(v, list) else v) for k, v in args.items()}
+            try:
+                if fn == 'objid':
+                    ri = S.sdss_objid(kw.pop('run'), kw.pop('camcol'), kw.pop('field'), kw.pop('objnum'), **kw)
+                else:
+                    ri = S.sdss_specobjid(kw.pop('plate'), kw.pop('fiber'), kw.pop('mjd'), kw.pop('run2d'), **kw)
+                gi = _intlist(ri)
+            except Exception as e:  # noqa: BLE001
+                gi = repr(e)
+            if gi != [got[i]]:
+                main.append(('%s:array-vs-scalar-differs' % name, 'element %d: array call %r, scalar call %r for %s' % (i, got[i], gi, args)))
+                break
     return main + side
 
 
@@ -355,7 +379,15 @@ def _idarray(ids, form, signed):
 
 
 def check_unwrap(case):
-    """One unwrap call on explicit ids; list of (sig, msg)."""
+    """One unwrap call on explicit ids (made twice on the same array); list of (sig, msg).  A wrong field of a
+    multi-element array whose elements are all unwrapped correctly one at a time gets a computed trigger suffix."""
+    res = _check_unwrap(case)
+    if res and len(case['ids']) > 1 and all(_check_unwrap(dict(case, ids=[i])) == [] for i in case['ids']):
+        res = [(sig + ':multi-element-array-only', msg) for sig, msg in res]
+    return res
+
+
+def _check_unwrap(case):
     fn = case['fn']
     ids = case['ids']
     form = case['form']
@@ -395,8 +427,8 @@ def check_unwrap(case):
         return [('%s:result-columns:%s' % (fn, type(e).__name__), repr(e))] + side
     if wrong:
         return [(unwrap_sig(fn, wrong), 'ids %s form %s%s: got %s expected %s'
-                 % (ids[:2], form, '' if fn == 'unwrap_objid' else ' run2d_integer=%s specLineIndex=%s' % (ri, li),
-                    [u[c].tolist()[:2] for c in wrong], [want[c][:2] for c in wrong]))] + side
+                 % (ids[:5], form, '' if fn == 'unwrap_objid' else ' run2d_integer=%s specLineIndex=%s' % (ri, li),
+                    [u[c].tolist()[:5] for c in wrong], [want[c][:5] for c in wrong]))] + side
     return side
 
 
@@ -477,6 +509,10 @@ def tasks(tier):
     t.append({'k': 'spec-run2d-str', 'all': T})
     t.append({'k': 'spec-mixed'})
     t.append({'k': 'obj-defaults'})
+    for fn, names in (('objid', OBJ_NAMES), ('specobjid', ('plate', 'fiber', 'mjd', 'run2d', 'line', 'index'))):
+        for name in names:
+            for base in (('min', 'mid', 'max') if T else ('min', 'mid')):
+                t.append({'k': 'order', 'fn': fn, 'field': name, 'maxlen': 5 if T else 4, 'bases': [base]})
     return t
 
 
@@ -766,6 +802,8 @@ def spec_sweep(acc, task):
 # ------------------------------------------------------------------ individually enumerated cases
 def _one(acc, case):
     key = (case['fn'], json.dumps(case.get('args', case.get('ids')), sort_keys=True), case.get('form'), case.get('dtype'))
+    if case['fn'].startswith('unwrap'):
+        key = key + (case.get('run2d_integer'), case.get('specLineIndex'))
     res = check_case(case)
     if res is None:
         acc.skip('dont-care (MJD == 50000 or explicit default next to longer arrays)')
@@ -774,6 +812,10 @@ def _one(acc, case):
         acc.case(key, True, 'bad:' + res[0][0], sample=case)
         for sig, msg in res:
             acc.violation(sig, case, msg)
+        return
+    if case['fn'].startswith('unwrap'):
+        acc.case(key, True,
+                 'ok:%s:%s:%s' % (case['fn'], case['form'], case.get('tag', 'value')), sample=case)
         return
     exp = expect_objid(case['args']) if case['fn'] == 'objid' else expect_specid(case['args'])
     conv = 'array' if any(isinstance(v, list) for v in case['args'].values()) else 'scalar'
@@ -948,6 +990,48 @@ def defaults_task(acc):
                 _one(acc, {'fn': 'objid', 'args': a, 'tag': 'defaults'})
 
 
+ORDER_ALPHA = {'skyversion': (0, 2, 15), 'rerun': (0, 301, 2047), 'run': (0, 3704, 65535), 'camcol': (1, 3, 6),
+               'firstfield': (0, 1), 'field': (0, 91, 4095), 'objnum': (0, 146, 65535),
+               'plate': (0, 4055, 16383), 'fiber': (0, 408, 4095), 'mjd': (50001, 55359, 66383), 'run2d': (0, 700, 16383),
+               'line': (0, 137, 1023), 'index': (0, 137, 1023)}
+ORDER_BASE = {'min': 0, 'mid': 1, 'max': -1}
+
+
+def order_task(acc, task):
+    """Array-ORDER layer: for one field, ALL arrays of length 1..maxlen over its 2-3 value alphabet (a,b,a / a,a,b /
+    a,b,b,a ... included), the other fields constant; array call vs. oracle vs. one scalar call per element, and the
+    resulting id arrays through every unwrap form/option vs. oracle vs. one-id-at-a-time calls."""
+    fn, f = task['fn'], task['field']
+    alpha = ORDER_ALPHA[f]
+    for base in task['bases']:
+        b = ORDER_BASE[base]
+        if fn == 'objid':
+            const = {name: ORDER_ALPHA[name][b] for name in OBJ_NAMES if name != f}
+        else:
+            const = {name: ORDER_ALPHA[name][b] for name in ('plate', 'fiber', 'mjd', 'run2d') if name != f}
+            if f not in ('line', 'index') and base != 'min':
+                const['line' if base == 'mid' else 'index'] = ORDER_ALPHA['line'][b]
+        for n in range(1, task['maxlen'] + 1):
+            for arr in itertools.product(alpha, repeat=n):
+                args = {name: [v] * n for name, v in const.items()}
+                args[f] = list(arr)
+                for prof in ('i8', 'i4'):
+                    case = {'fn': fn, 'args': args, 'tag': 'order'}
+                    if prof != 'i8':
+                        case['dtype'] = prof
+                    _one(acc, case)
+                exp = expect_objid(args) if fn == 'objid' else expect_specid(args)
+                ids = exp[1]
+                for form in ('int', 'U', 'S'):
+                    if fn == 'objid':
+                        _one(acc, {'fn': 'unwrap_objid', 'ids': ids, 'form': form, 'tag': 'order'})
+                    else:
+                        for ri in (False, True):
+                            for li in (False, True):
+                                _one(acc, {'fn': 'unwrap_specobjid', 'ids': ids, 'form': form, 'run2d_integer': ri,
+                                           'specLineIndex': li, 'tag': 'order'})
+
+
 def run_task(task):
     acc = Acc()
     k = task['k']
@@ -971,6 +1055,8 @@ def run_task(task):
         mixed_task(acc)
     elif k == 'obj-defaults':
         defaults_task(acc)
+    elif k == 'order':
+        order_task(acc, task)
     else:
         raise ValueError(k)
     return acc
